@@ -71,6 +71,14 @@ def gen_string(rng):
         if which == 1:
             return "rawnull", "$a = /[0-9]*x?/", None, [b"12x", b"x", b"ab", b"7"]
         return "rawnull", "$a = /a?b?/", None, [b"ab", b"ba", b"cc", b"a"]
+    if k == 8 and rng.chance(1, 2):
+        # Raw (anchors): WIDE regexes with word boundaries, the match preceded by a wide character
+        which = rng.below(3)
+        if which == 0:
+            return "raw", "$a = /\\bab$/ wide", None, [b"<\x00a\x00b\x00", b"<\x00a\x00b\x00\n\x00", b"a\x00b\x00\n\x00", b"x\x00a\x00b\x00"]
+        if which == 1:
+            return "raw", "$a = /^ab\\b/ wide", None, [b"a\x00b\x00.\x00", b"\n\x00a\x00b\x00 \x00", b"a\x00b\x00c\x00"]
+        return "raw", "$a = /\\Bcd$/ wide", None, [b"b\x00c\x00d\x00", b"-\x00c\x00d\x00", b"b\x00c\x00d\x00\n\x00"]
     which = rng.below(4)    # Raw: no literal can be extracted
     if which == 0:
         return "raw", "$a = /[a-c]{2}/", None, [b"ab", b"ca", b"bbb", b"abcabc"]
